@@ -327,9 +327,20 @@ def initial_handler(mir, d, c, initial):
     if a is None:
         return False
     idx = [i for i, v in enumerate(a["variants"]) if v["name"] == variant][0]
+    dom = None
     for (blk, succ) in cdt.get(c.bb, ()):
         t = d.blocks[blk]["term"]
-        if t["k"] == "switch" and canon(ex.operand(t["discr"])).startswith("discr(param1.state"):
+        if t["k"] != "switch":
+            continue
+        ce = canon(ex.operand(t["discr"]))
+        on_state = ce.startswith("discr(param1.state")
+        if not on_state and re.match(r"^discr\(phi\[param1 \| .*\]\.state", ce):
+            # the dispatcher also assigns the state itself (handlers inlined into it): the flow-insensitive value of
+            # `self` then mixes in those writes; the test is on the incoming state if it comes before every such write
+            dom = dom or d.dominators()
+            writes = [bi for bi, b in enumerate(d.blocks) if not b["cleanup"] and any(s_["k"] == "assign" and s_["pl"]["l"] == 1 and s_["pl"]["p"] for s_ in b["stmts"])]
+            on_state = all(blk in dom.get(w_, ()) and w_ != blk for w_ in writes)
+        if on_state:
             for (v, tb) in t["targets"]:
                 if tb == succ and v == idx:
                     return True
@@ -367,6 +378,11 @@ def discharge(mir, cx, fn, ex, cls, kind, bb, obj, desc, args, tests):
         ln, ix = args
         if re.search(r"\.states\)?\)?$", ln) and re.match(r"^param\d+\.0$", ix):
             return "D-stateidx", cx.stateidx_ok[0], "state index is a position of the states vector (A-idx): " + cx.stateidx_ok[1]
+        # v[i] with i the counter of `for i in 0..v.len()` over the same v
+        mlen = re.match(r"^PtrMetadata\((.*)\)$", ln)
+        mix = re.match(r"^\(range::next\(IntoIterator@\w+::into_iter\(Range::Range\{const\(0_usize\), (?:slice|Vec)::len\((.*)\)\}\)\) as Some\)\.0$", ix)
+        if mlen and mix and mlen.group(1) == mix.group(1):
+            return "D-range", True, "index is the counter of 0..len() of the indexed collection itself"
         return None, False, ""
     # calls
     c = obj
@@ -405,7 +421,7 @@ def discharge(mir, cx, fn, ex, cls, kind, bb, obj, desc, args, tests):
             return "D-tref", cx.tref_ok[0] and cx.method_map_ok[0], "method-name map is built from all terminal variants (%s); references are defined terminals (%s)" % (cx.method_map_ok[1], cx.tref_ok[1])
         if re.match(r"^%s\(param\d+(\.\w+)*\.terminal_enum, " % cx.roles.sp("terminal_get_type"), a0):
             return "D-tref", cx.tref_ok[0] and cx.get_type_ok[0], "get_type searches all terminal variants by full name (%s); references are defined terminals (%s)" % (cx.get_type_ok[1], cx.tref_ok[1])
-        if re.match(r"^%s\(param1\.machine, param\d+, param\d+\)$" % cx.roles.sp("machine_shift_dest"), a0):
+        if re.match(r"^%s\(param1\.machine, param\d+, (?:param\d+|\(%s\(.*\.dot\) as Terminal\)\.0\.name)\)$" % (cx.roles.sp("machine_shift_dest"), cx.roles.sp("symbol_accessor")), a0):
             return "D-shiftdest", True, "every terminal right of a dot has a transition from its state (A-trans: the worklist expands every state after its last growth)"
         return None, False, ""
     if kind == "index":
